@@ -1175,6 +1175,17 @@ theorem unV_sound (env : Env) (i : Instr) (a r : Val) (hwa : WF a) (h : Spec.unV
       refine ⟨?_, by simp [unTy, emitTy, typeOf, ht]⟩
       rw [wf_opEmit]; exact hasTy_iff.mpr ⟨hwa, ht⟩
     · simp at h
+  · -- PACK
+    simp only [Spec.unV, Spec.packV] at h
+    split at h
+    · simp at h
+    · rename_i hp
+      simp only [Bool.not_eq_true', Bool.not_eq_false] at hp
+      split at h
+      · simp at h
+      · split at h
+        · simp at h; subst h; simp [unTy, packTy, hp, typeOf]
+        · simp at h
 
 section
 variable (env : Env) (st st' : List Val) (hw : StackWF st)
@@ -1344,5 +1355,8 @@ theorem step_sound (env : Env) (i : Instr) (st st' : List Val) (hw : StackWF st)
   case SELF ep t =>
     simp [Spec.step] at hev; subst hev; simp [Typing.step, typeOf, stackWF_cons, hw, wf_contract]
   case TRANSFER_TOKENS => exact sound_TRANSFER_TOKENS env st st' hw hev
+  case PACK =>
+    exact sound_unop env st st' hw .PACK (Spec.unV env .PACK) (unTy .PACK) (fun _ _ => rfl) rfl
+      (fun _ _ => rfl) (unV_sound env .PACK) hev
 
 end Interp
